@@ -54,8 +54,8 @@ class IntEst(BaseEstimator, ClassifierMixin):
        fed with the label of another row is scored differently).  proba: "" -> decision_function; "2col" / "1col" /
        "flat" -> predict_proba only (strictly increasing exact image 1/2 + score / 2^22 of the integer score)."""
 
-    def __init__(self, cols=(2, 1), proba="", token=0):
-        self.cols, self.proba, self.token = cols, proba, token
+    def __init__(self, cols=(2, 1), proba="", token=0, offset=0):
+        self.cols, self.proba, self.token, self.offset = cols, proba, token, offset
 
     def fit(self, X, y):
         self.k_ = getattr(self, "k_", 0) + 1
@@ -73,7 +73,7 @@ class IntEst(BaseEstimator, ClassifierMixin):
         col = self.cols[(k - 1) % len(self.cols)]
         ids = [int(round(v)) for v in X[:, 0]]
         seen = self.__dict__.get("seen_", {})
-        s = 3.0 * X[:, col].astype(float) + np.array([float(seen.get(i, 1)) for i in ids])
+        s = 3.0 * X[:, col].astype(float) + np.array([float(seen.get(i, 1)) for i in ids]) + float(self.__dict__.get("offset", 0))
         rec = _REC.get(self.token)
         if rec is not None:
             rec.append(("score", k, ids, [float(v) for v in s]))
@@ -161,15 +161,20 @@ class FixedPerm(np.random.Generator):
         self._perm = [int(p) for p in perm]
 
     def permutation(self, x, axis=0):
-        if len(x) != len(self._perm):
-            raise MachineryError("FixedPerm asked for a permutation of %d items, holds %d" % (len(x), len(self._perm)))
+        n = x if isinstance(x, (int, np.integer)) else len(x)
+        if n != len(self._perm):
+            # the code asks for a permutation of something else than all rows (e.g. only of the rows it trains on): any
+            # permutation is a legitimate answer of the environment -- the property does not depend on which one
+            return super().permutation(x, axis=axis)
+        if not isinstance(x, (int, np.integer)):
+            return np.asarray(x)[np.asarray(self._perm, dtype=np.int64)]
         return np.asarray(self._perm, dtype=np.int64)
 
 
 def make_estimator(spec, token):
     kind = spec["kind"]
     if kind == "int":
-        return IntEst(cols=tuple(spec["cols"]), proba=spec.get("proba", ""), token=token)
+        return IntEst(cols=tuple(spec["cols"]), proba=spec.get("proba", ""), token=token, offset=int(spec.get("offset", 0)))
     from sklearn.linear_model import LogisticRegression
     from sklearn.svm import LinearSVC
     if kind == "lr":
@@ -441,6 +446,10 @@ def random_case(rng, idx, real_kind=None):
         ncols = int(rng.integers(1, nfeat + 1))
         cols = [int(c) + 1 for c in rng.permutation(nfeat)[:ncols]]
         est = {"kind": "int", "cols": cols, "proba": ["", "2col", "", "1col", "", "flat"][idx % 6]}
+        if idx % 6 in (0, 4):
+            # decision values with a large common offset: distinct as doubles, NOT all distinct in single precision (spacing 4
+            # near 4e7) -- the labels of the next iteration are those under the scores as returned
+            est["offset"] = 40000000
     else:
         feats = {}
         for nm in names:
